@@ -15,6 +15,7 @@ UNMODELLED = [f for f in ALL_FORMATS if f not in MODELLED] + ["auto(format autod
 
 STABLE_ANCHOR_KEY = "C01:selex-stream:stable-anchor-uaf"
 LEAK_KEY = None
+NUL_ANNOTATION_KEY = "C01:annotation:embedded-nul"
 
 OK_OPEN = {"ok", "enoformat", "enoalphabet"}
 OK_READ = {"ok", "eof", "eformat"}
@@ -98,6 +99,8 @@ class C01(Prop):
         add("leak-clustal", b"CLUSTAL W (1.83) multiple sequence alignment\n\na ACG\nb AC\n", "clustal")
         add("item8-selex-stream", selex_witness(), "selex", "text", "stream", 0, known_key=STABLE_ANCHOR_KEY)
         add("selex-only-cs", b"#=CS <<>>\n", "selex"); add("selex-cr", b"\r", "selex", "amino"); add("selex-rf-then-block", b"#=RF x\n\nseq1 ACGT\n", "selex")
+        add("nul-in-selex-cs", b"#=CS xx\x00xx\nseq1 ACDEF\nseq2 ACDEF\n", "selex")
+        add("nul-in-stockholm-gc", b"# STOCKHOLM 1.0\nseq1 ACDEF\n#=GC SS_cons xx\x00xx\n//\n", "stockholm")
         add("empty", b"", "auto", "guess"); add("empty-afa", b"", "afa", "text"); add("nul", b"\x00", "auto")
         return c
 
@@ -239,6 +242,11 @@ class C01(Prop):
 
     def _pending_key(self, kv, tok, line=""):
         """keys of genuine defects that are recorded as known findings (each: exact class only)"""
+        if tok.startswith(("chk=sscons", "chk=sacons", "chk=ppcons", "chk=rf", "chk=mm", "chk=gclen", "chk=grlen", "chk=sslen", "chk=salen", "chk=pplen", "val=fail")):
+            try: data = bytes.fromhex(kv.get("hex", "").replace("-", ""))
+            except ValueError: data = b""
+            if any(b"\x00" in ln and ln.lstrip(b" \t").startswith(b"#=") for ln in data.split(b"\n")):
+                return NUL_ANNOTATION_KEY
         return None
 
     def extra_evidence(self, ctx):
